@@ -119,6 +119,53 @@ pub fn run(e: &Engine) {
         |c| c.to_json(),
         |c, rec| check(c, true, rec),
     );
+    let big: Vec<gen::Recipe> = (0..e.tier.pick(6u64, 24)).map(|i| gen::Recipe { kind: (1 + i % 3) as u8, n: 30_000 + i * 23_000, seed: crate::engine::mix(e.seed, 300 + i), fanout: 3 + (i % 6) as u8, keylen: 10 + (i % 9) as u8, values: (i % 4) as u8 }).collect();
+    e.run_list("large-files-sampled-ranges", &big, |r| r.to_json(), |r, rec| {
+        let pairs = r.pairs();
+        let set = r.values == 0;
+        let bytes = gen::build_plain(&pairs, set).map_err(|m| crate::engine::Fail::new("build-error", m))?;
+        if bytes.len() > 1 << 16 {
+            rec.class("file_over_64KiB");
+        }
+        // narrow windows around sampled keys, with present and absent bound keys of varying length
+        let n = pairs.len();
+        for j in 0..200usize {
+            rec.eval();
+            let i = (crate::engine::mix(r.seed, j as u64) % n as u64) as usize;
+            let w = 1 + (j % 40);
+            let lo = &pairs[i].0;
+            let hi = &pairs[(i + w).min(n - 1)].0;
+            let mut lo2 = lo.clone();
+            let mut hi2 = hi.clone();
+            match j % 4 {
+                0 => {}
+                1 => {
+                    lo2.push(0);
+                    hi2.extend_from_slice(&[0xff; 20]); // bound far longer than any key
+                }
+                2 => {
+                    lo2.truncate(lo.len() / 2);
+                    hi2.truncate(hi.len() - 1);
+                }
+                _ => {
+                    lo2.extend_from_slice(b"-a-long-tail-beyond-sixteen-bytes");
+                    if let Some(l) = hi2.last_mut() {
+                        *l = l.wrapping_add(1);
+                    }
+                }
+            }
+            let b: Bounds = vec![(if j % 2 == 0 { Kind::Ge } else { Kind::Gt }, lo2), (if j % 3 == 0 { Kind::Le } else { Kind::Lt }, hi2)];
+            // the model filter over the whole content (a windowed filter would be
+            // unsound: a truncated lower bound reaches far before the sampled key)
+            let want = oracle::model_range(&pairs, &b);
+            let f = fst::raw::Fst::new(&bytes[..]).map_err(|e| crate::engine::Fail::new("open-failed", format!("{:?}", e)))?;
+            let got = gen::collect_stream(oracle::apply_raw(f.range(), &b));
+            vensure!(got == want, "range-mismatch", "large file ({} bytes): Fst::range(){} yields {} but the model gives {}", bytes.len(), oracle::bounds_show(&b), oracle::keys_show(&got), oracle::keys_show(&want));
+        }
+        rec.nontrivial(H::new().u(r.n).u(r.seed).u(0x03).get());
+        Ok(())
+    });
+    e.require_class("file_over_64KiB", 1);
     e.require_class("same_kind_set_twice", 1);
     e.require_class("inverted_range", 1);
     e.require_class("empty_string_bound", 1);
